@@ -351,7 +351,15 @@ type verifC14Req struct {
 	state     int // 0 none, 1 rescan pending, 2 rescan done
 	pendConf  *chainntnfs.HistoricalConfDispatch
 	pendSpend *chainntnfs.HistoricalSpendDispatch
-	staleDiag bool
+	// Known-finding class KF-C14-2, proven harness-side: while the
+	// request's historical rescan was pending (state 1) a disconnect left
+	// its persisted hint (unchanged since the rescan was requested, and
+	// fine back then) above tip+1. staleVal is that hint value; only a
+	// later hint violation with exactly this value carries the suffix.
+	hintAtPending uint32
+	hintOkAtPend  bool
+	staleDiag     bool
+	staleVal      uint32
 
 	// Known-finding class KF-C14-1, proven harness-side: orphanBlk is the
 	// block of found rescan details that were delivered while the request
@@ -812,8 +820,8 @@ func (h *verifC14H) checkHints(where string) {
 					kind = "spend"
 				}
 				key := kind + "-hint-above-inclusion-height"
-				if q.staleDiag {
-					key += "-stale-since-pending-rescan"
+				if q.staleDiag && hint == q.staleVal {
+					key += "+stale-since-disconnect-during-pending-rescan"
 				}
 				h.violation(q, "hint_le_inclusion", key,
 					fmt.Sprintf("%s: persisted %s hint %d for %s exceeds the height %d at which it is included on the active chain (tip %d)",
@@ -823,8 +831,10 @@ func (h *verifC14H) checkHints(where string) {
 		}
 		h.vc.Count("diag_hint_unincluded_evals", 1)
 		if hint > tip+1 {
-			if q.state == 1 {
+			if q.state == 1 && q.hintOkAtPend && hint == q.hintAtPending && !q.staleDiag {
 				q.staleDiag = true
+				q.staleVal = hint
+				h.vc.Count("kf_c14_2_precondition_met", 1)
 			}
 			h.vc.Diag("hint_above_tip_plus_one", fmt.Sprintf("%s: hint %d for %s (rescan state %d) tip %d",
 				where, hint, q.Key, q.state, tip))
@@ -1032,6 +1042,7 @@ func (h *verifC14H) register(q *verifC14Req, immediate bool) {
 		if reg.HistoricalDispatch != nil {
 			q.state = 1
 			q.pendSpend = reg.HistoricalDispatch
+			h.notePending(q)
 			h.nHist++
 		} else if q.state == 0 {
 			q.state = 2
@@ -1066,6 +1077,7 @@ func (h *verifC14H) register(q *verifC14Req, immediate bool) {
 		if reg.HistoricalDispatch != nil {
 			q.state = 1
 			q.pendConf = reg.HistoricalDispatch
+			h.notePending(q)
 			h.nHist++
 		} else if q.state == 0 {
 			q.state = 2
@@ -1186,6 +1198,28 @@ func (h *verifC14H) deliver(q *verifC14Req) bool {
 	return true
 }
 
+// notePending remembers the persisted hint at the moment a historical rescan
+// is requested (precondition bookkeeping of known finding KF-C14-2).
+func (h *verifC14H) notePending(q *verifC14Req) {
+	var hint uint32
+	var err error
+	if q.IsSpend {
+		hint, err = h.cache.QuerySpendHint(q.SpendR)
+	} else {
+		hint, err = h.cache.QueryConfirmHint(q.Conf)
+	}
+	q.hintAtPending, q.hintOkAtPend = 0, false
+	if err != nil {
+		return
+	}
+	bound := h.m.tip() + 1
+	if b, _ := h.truth(q); b != nil {
+		bound = b.Height
+	}
+	q.hintAtPending = hint
+	q.hintOkAtPend = hint <= bound
+}
+
 // noteOrphan records the precondition of known finding KF-C14-1.
 func (h *verifC14H) noteOrphan(q *verifC14Req, found bool, height uint32) {
 	if !found || h.liveClients(q) != 0 || q.orphanStale {
@@ -1304,13 +1338,27 @@ type verifC14DB struct {
 var verifC14LimitChoices = []uint32{3, 6, 144}
 
 func verifC14OpenCache(t *testing.T, name string, batch bool) (*channeldb.HeightHintCache, func()) {
-	dir := os.Getenv("VERIF_SCRATCH")
-	if dir == "" {
-		dir = t.TempDir()
+	// The hint cache is a real bbolt file; it is placed on tmpfs when
+	// available because every hint commit fsyncs (durability across power
+	// loss is not what C14 is about, and the fsyncs dominate the run time
+	// on a shared disk). Falls back to the per-shard scratch directory.
+	var dir string
+	cleanup := func() {}
+	if st, err := os.Stat("/dev/shm"); err == nil && st.IsDir() {
+		if d, err := os.MkdirTemp("/dev/shm", "verif-c14-"+name+"-"); err == nil {
+			dir = d
+			cleanup = func() { os.RemoveAll(d) }
+		}
 	}
-	dir = filepath.Join(dir, name)
-	if err := os.MkdirAll(dir, 0o755); err != nil {
-		t.Fatalf("verif C14: %v", err)
+	if dir == "" {
+		dir = os.Getenv("VERIF_SCRATCH")
+		if dir == "" {
+			dir = t.TempDir()
+		}
+		dir = filepath.Join(dir, name)
+		if err := os.MkdirAll(dir, 0o755); err != nil {
+			t.Fatalf("verif C14: %v", err)
+		}
 	}
 	db, err := kvdb.GetBoltBackend(&kvdb.BoltBackendConfig{
 		DBPath: dir, DBFileName: "hints.db", NoFreelistSync: true,
@@ -1330,7 +1378,7 @@ func verifC14OpenCache(t *testing.T, name string, batch bool) (*channeldb.Height
 	if err != nil {
 		t.Fatalf("verif C14: hint cache: %v", err)
 	}
-	return cache, func() { db.Close() }
+	return cache, func() { db.Close(); cleanup() }
 }
 
 func (h *verifC14H) seqOp() {
@@ -1658,7 +1706,7 @@ func TestVerifC14(t *testing.T) {
 	batchCache, closeBatch := verifC14OpenCache(t, "seqbatch", true)
 	defer closeBatch()
 
-	total := vc.N(10000, 200000)
+	total := vc.N(8000, 200000)
 	for i := 0; i < total; i++ {
 		if !vc.Mine(i) {
 			continue
